@@ -318,6 +318,41 @@ func c17Real(c *Ctx) {
 				c.Oracle(n, true, "")
 			}
 		}
+		// the same through a path whose last component is a symbolic link: SETSTAT by path acts on the file the path resolves
+		// to (chown(2), chmod(2), utimes(2) all follow), the link itself keeps its owner
+		if os.Geteuid() == 0 {
+			os.WriteFile(filepath.Join(dir, "referent"), []byte("r"), 0o600)
+			os.Symlink("referent", filepath.Join(dir, "via"))
+			linkBefore, _ := lsnap(filepath.Join(dir, "via"))
+			for _, setter := range []string{"Client.Chown", "Client.Chmod"} {
+				uid, gid, mode := 4321, 8765, os.FileMode(0o604)
+				var serr error
+				if setter == "Client.Chown" {
+					serr = p.Client.Chown(filepath.Join(base, "via"), uid, gid)
+				} else {
+					serr = p.Client.Chmod(filepath.Join(base, "via"), mode)
+				}
+				ref, _ := lsnap(filepath.Join(dir, "referent"))
+				linkAfter, _ := lsnap(filepath.Join(dir, "via"))
+				n := c.Case("real_setowner", kvs("setter", setter+"-via-symlink"), kvx("mode", uint64(mode)), kvb("workdir", cfg.workDir != ""), kvb("alloc", cfg.alloc))
+				c.NT(n)
+				c.Stat("real_set_through_symlink")
+				switch {
+				case serr != nil:
+					c.Oracle(n, false, setter+" through a symbolic link: "+serr.Error())
+				case setter == "Client.Chown" && (int(ref.UID) != uid || int(ref.GID) != gid):
+					c.Oracle(n, false, fmt.Sprintf("%s(%d, %d) on a path ending in a symbolic link left owner %d:%d on the file it names (the link itself: %d:%d -> %d:%d)", setter, uid, gid, ref.UID, ref.GID, linkBefore.UID, linkBefore.GID, linkAfter.UID, linkAfter.GID))
+				case setter == "Client.Chown" && (linkAfter.UID != linkBefore.UID || linkAfter.GID != linkBefore.GID):
+					c.Oracle(n, false, fmt.Sprintf("%s on a path ending in a symbolic link changed the owner of the link itself (%d:%d -> %d:%d)", setter, linkBefore.UID, linkBefore.GID, linkAfter.UID, linkAfter.GID))
+				case setter == "Client.Chmod" && ref.Mode&os.ModePerm != mode:
+					c.Oracle(n, false, fmt.Sprintf("%s(%v) on a path ending in a symbolic link left mode %v on the file it names", setter, mode, ref.Mode&os.ModePerm))
+				default:
+					c.Oracle(n, true, "")
+				}
+			}
+			os.Remove(filepath.Join(dir, "via"))
+			os.Remove(filepath.Join(dir, "referent"))
+		}
 		listed, lerr := p.Client.ReadDir(base)
 		byName := map[string]os.FileInfo{}
 		for _, fi := range listed {
@@ -573,4 +608,12 @@ func c17StatInfos(c *Ctx) {
 			}
 		}
 	}
+}
+
+// c17HostOwner: the owner a host os.FileInfo carries in its *syscall.Stat_t.
+func c17HostOwner(fi os.FileInfo) (uint32, uint32) {
+	if st, ok := fi.Sys().(*syscall.Stat_t); ok {
+		return st.Uid, st.Gid
+	}
+	return 0, 0
 }
